@@ -75,6 +75,19 @@ UNIT_TRUSTED["table_policy"] = [
     "NOT under contract: the regular-expression members of an as-path set (known finding F-C14-4), prefix / neighbour sets with the ALL option (rejected by add_statement), the byte layout of community attributes, and the PolicyTable CRUD 'still referenced cannot be deleted' clause",
 ]
 
+UNIT_TRUSTED["packet_negotiate"] = [
+    "PeerCodec::negotiate wrapped in place, including its local struct `Raw`, the `parse` closure (five loops under invariants) and the main loop; R11 / R11b helpers with assumed contracts: vx_hm_get_mut (`h.get_mut(f)` as a `&mut` into the map), vx_hm_into_vec (`for (f, rc) in parse(remote)`: the entries of the map, each key once, order unspecified — the statement is split into `let rmap = parse(remote); let rv = ..; for .. in rv`), VxIterS (`v.iter()` on a slice with verified `.any`); vstd's HashMap::{insert, remove}; Family obeys the hash-key model; Family::afi uninterpreted; the type annotation `FnvHashMap<Family, FamilyState>` added to `families` (rustc infers the same); #[verifier::loop_isolation(false)], rlimit(400)",
+    "the reference: a family is advertised iff some MultiProtocol capability names it; its ADD-PATH value is the last one listed for it over all ADD-PATH capabilities in order (0 if none), only for advertised families; extended next hop iff the family has AFI 1 and some ExtendedNexthop entry (f, 2) — taken from the code's reading of RFC 7911 / RFC 8950, the property only asks for the mirror image",
+    "NOT under contract: graceful restart / LLGR negotiation (negotiate_gr, negotiate_llgr in daemon/src/event/mod.rs), hold time (min of both, in the FSM: C07/C08), role and 4-octet AS as used by the FSM",
+]
+
+UNIT_TRUSTED["daemon_restart"] = [
+    "prelude p_restart: the pending map FnvHashMap<IpAddr, FnvHashSet<Family>> viewed as Map<IpAddr, Set<Family>> (vstd's HashMap / HashSet views; IpAddr and Family obey the hash-key model, fnv builds valid hashers: assumed)",
+    "R11 / R11b helpers, each with the replaced expression as its body (contracts assumed): vx_pending_get_mut (`get_mut` and the occupied case of `entry()` as a `&mut` into the map: only that key's value changes, stated over final(..) of the returned reference), vx_entry_insert (OccupiedEntry::insert = replace the value, return the old one), vx_values_any (`values().any(f)` = f holds for some stored set), vx_union_values_set / vx_union_values_vec (the union of the sets; as a vector each family once), vx_set_into_vec_nodup (every element once), vx_set_filter_copied (the elements satisfying the verified predicate, each once), vx_sort_families (a permutation; the sort key only decides the order), vx_peers_filter_map_collect (`into_iter().filter_map(f).collect()` into a map for an f that keeps the key — that it does is a precondition checked at the call site), vx_fams_into_set; std::mem::replace",
+    "complete_for's iterator chain is the verified loop vx_iter_filter_map_collect (R12c); rlimit(100) on process",
+    "NOT under contract: Rib.deferring / Table::{insert,start_deferral,end_deferral} (note T) — that selection is suppressed while a family is deferred and that end_deferral emits every destination exactly once; the async driver (process_restarting_outputs, gr_selection_deferral_timer_expired) — that the inputs arrive as the events they are named after and that each FamilyDeferralComplete / EndDeferral is turned into exactly one end_deferral per family",
+]
+
 UNIT_TRUSTED["daemon_export"] = [
     "prelude p_export: packet::Attribute opaque with uninterpreted observers (code / value / binary / is_opaque / is_transitive = field reads of the packet crate); the AS_PATH edits as_path_prepend / as_path_prepend_confed / as_path_strip_confed / as_path_count, with_partial_bit, new_with_value, new_with_bin, empty_as_path are uninterpreted in this unit (the byte-level functions as_path_count / as_path_prepend / as_path_prepend_confed / as_path_strip_confed are verified in unit packet_aspath against byte specs, with lemmas that a prepend adds exactly one occurrence and one hop and keeps the structure, and that stripping removes exactly the confederation segments); assumed contracts here (result keeps the code; constructors return Some for the well-known codes 5, 8, 9, 10 — canonical_flags table, Kani harness c05_canonical_flags_table); 'prepended exactly once' therefore means 'as_path_prepend is applied exactly once to the confed-stripped path'",
     "table::Source kept outside Verus (atomics): remote_asn / local_asn read through accessor shims (R13); is_local (pointer identity), is_rr_client, is_rs_client assumed to return the role test they are named after; derive(PartialEq) on PeerRole structural; IpAddr::is_unspecified uninterpreted; Nexthop::addr = the address of the next hop",
@@ -122,8 +135,8 @@ UNIT_TRUSTED["packet_nlri"] = [
 ]
 
 # minimum number of functions that must produce obligations / of must-fail twins that must run
-FLOORS = {"daemon_fsm": 30, "daemon_gr": 4, "daemon_peer_tx": 9, "table_cmp": 20, "packet_validate": 1, "packet_parse": 1, "table_rpki": 5, "table_policy": 8, "daemon_export": 11, "packet_bmp": 6, "packet_mrt": 8, "packet_aspath": 11, "packet_encode": 4, "packet_nlri": 22}
-TWIN_FLOORS = {"daemon_fsm": 8, "daemon_gr": 3, "daemon_peer_tx": 2, "table_cmp": 4, "packet_validate": 1, "packet_parse": 1, "table_rpki": 1, "table_policy": 1, "daemon_export": 1, "packet_bmp": 1, "packet_mrt": 1, "packet_aspath": 1, "packet_encode": 1, "packet_nlri": 1}
+FLOORS = {"daemon_fsm": 30, "daemon_gr": 4, "daemon_peer_tx": 9, "table_cmp": 20, "packet_validate": 1, "packet_parse": 1, "table_rpki": 5, "table_policy": 8, "daemon_export": 11, "packet_bmp": 6, "packet_mrt": 8, "packet_aspath": 11, "packet_encode": 4, "packet_nlri": 22, "daemon_restart": 7, "packet_negotiate": 1}
+TWIN_FLOORS = {"daemon_fsm": 8, "daemon_gr": 3, "daemon_peer_tx": 2, "table_cmp": 4, "packet_validate": 1, "packet_parse": 1, "table_rpki": 1, "table_policy": 1, "daemon_export": 1, "packet_bmp": 1, "packet_mrt": 1, "packet_aspath": 1, "packet_encode": 1, "packet_nlri": 1, "daemon_restart": 1, "packet_negotiate": 0}
 
 PLAN = {
     "C01": {"verus": ["daemon_peer_tx", "daemon_export"], "level": "proof",
@@ -138,9 +151,10 @@ PLAN = {
             "fn_filter": {"packet_aspath": ["as_path_count", "as_path_prepend", "as_path_prepend_confed", "as_path_strip_confed",
                                             "lemma_prepend_props", "lemma_strip_props", "lemma_seg_count_shift", "lemma_seg_count_first", "lemma_be32_roundtrip"]}},
     "C10": {"verus": ["daemon_gr"], "level": "proof"},
+    "C11": {"verus": ["daemon_restart"], "level": "proof"},
     "C12": {"verus": ["table_rpki"], "kani": ["c12_covering_key_v4", "c12_covering_key_v6"], "level": "proof"},
     "C14": {"verus": ["table_policy"], "level": "proof"},
-    "C16": {"verus": ["daemon_fsm"], "kani": ["c16_ipnet_contains_v4", "c16_ipnet_contains_v6"], "level": "proof"},
+    "C16": {"verus": ["daemon_fsm", "packet_negotiate"], "kani": ["c16_ipnet_contains_v4", "c16_ipnet_contains_v6"], "level": "proof"},
     "C04": {"verus": ["packet_encode", "packet_aspath"], "level": "proof",
             "fn_filter": {"packet_aspath": ["encode", "encode_wire", "value", "binary", "as_path_has_wide_as", "lemma_seg_any_wide_mono"]}},
     "C02": {"verus": ["table_cmp", "packet_aspath"], "level": "proof",
